@@ -508,6 +508,8 @@ class Machine:
         return cmp({'Eq': '=', 'Ne': '!=', 'Lt': '<', 'Le': '<=', 'Gt': '>', 'Ge': '>='}[op], a, b)
 
     def int_bin(s, op, a, b, ty):
+        if a is UNINIT or b is UNINIT:
+            return UNINIT
         sym = is_sym(a) or is_sym(b)
         if op in ('Eq', 'Ne', 'Lt', 'Le', 'Gt', 'Ge'):
             return cmp({'Eq': '=', 'Ne': '!=', 'Lt': '<', 'Le': '<=', 'Gt': '>', 'Ge': '>='}[op], a, b)
@@ -629,6 +631,10 @@ class Machine:
                 s.ensure(p, o, s.lty(p, rv[1]))
             return [Ptr(o, off)]
         if k == 'discr':
+            if not rv[2] and s.obj(p, rv[1]) not in p.mem:
+                # discriminant of a local that was never written: MIR optimisations leave such reads behind when the value is
+                # known and only feeds an `assume` (e.g. the Break(()) of an inlined Iterator::all); it carries no information
+                return [UNINIT]
             v, ty = s.read_place(p, rv[1], rv[2])
             return [v[0]]
         if k == 'len':
